@@ -2115,12 +2115,14 @@ class Deb822NoDuplicateFieldsParagraphElement(Deb822ParagraphElement):
         # type: (ParagraphKey) -> None
         """Re-order the given field so it is "last" in the paragraph"""
         unpacked_field, _, _ = _unpack_key(field, raise_if_indexed=True)
+        self._add_final_newline_if_missing()
         self._kvpair_order.order_last(unpacked_field)
 
     def order_first(self, field):
         # type: (ParagraphKey) -> None
         """Re-order the given field so it is "first" in the paragraph"""
         unpacked_field, _, _ = _unpack_key(field, raise_if_indexed=True)
+        self._add_final_newline_if_missing()
         self._kvpair_order.order_first(unpacked_field)
 
     def order_before(self, field, reference_field):
@@ -2130,6 +2132,7 @@ class Deb822NoDuplicateFieldsParagraphElement(Deb822ParagraphElement):
         The reference field must be present."""
         unpacked_field, _, _ = _unpack_key(field, raise_if_indexed=True)
         unpacked_ref_field, _, _ = _unpack_key(reference_field, raise_if_indexed=True)
+        self._add_final_newline_if_missing()
         self._kvpair_order.order_before(unpacked_field, unpacked_ref_field)
 
     def order_after(self, field, reference_field):
@@ -2140,6 +2143,7 @@ class Deb822NoDuplicateFieldsParagraphElement(Deb822ParagraphElement):
         """
         unpacked_field, _, _ = _unpack_key(field, raise_if_indexed=True)
         unpacked_ref_field, _, _ = _unpack_key(reference_field, raise_if_indexed=True)
+        self._add_final_newline_if_missing()
         self._kvpair_order.order_after(unpacked_field, unpacked_ref_field)
 
     def iter_keys(self):
@@ -2271,6 +2275,7 @@ class Deb822DuplicateFieldsParagraphElement(Deb822ParagraphElement):
         """Re-order the given field so it is "last" in the paragraph"""
         nodes, nodes_being_relocated = self._nodes_being_relocated(field)
         assert len(nodes_being_relocated) == 1 or len(nodes) == len(nodes_being_relocated)
+        self._add_final_newline_if_missing()
 
         kvpair_order = self._kvpair_order
         for node in nodes_being_relocated:
@@ -2292,6 +2297,7 @@ class Deb822DuplicateFieldsParagraphElement(Deb822ParagraphElement):
         """Re-order the given field so it is "first" in the paragraph"""
         nodes, nodes_being_relocated = self._nodes_being_relocated(field)
         assert len(nodes_being_relocated) == 1 or len(nodes) == len(nodes_being_relocated)
+        self._add_final_newline_if_missing()
 
         kvpair_order = self._kvpair_order
         for node in nodes_being_relocated:
@@ -2320,6 +2326,7 @@ class Deb822DuplicateFieldsParagraphElement(Deb822ParagraphElement):
         reference_node = reference_nodes[0]
         if reference_node in nodes_being_relocated:
             raise ValueError("Cannot re-order a field relative to itself")
+        self._add_final_newline_if_missing()
 
         kvpair_order = self._kvpair_order
         for node in nodes_being_relocated:
@@ -2344,6 +2351,7 @@ class Deb822DuplicateFieldsParagraphElement(Deb822ParagraphElement):
         reference_node = reference_nodes[-1]
         if reference_node in nodes_being_relocated:
             raise ValueError("Cannot re-order a field relative to itself")
+        self._add_final_newline_if_missing()
 
         kvpair_order = self._kvpair_order
         # Use "reversed" to preserve the relative order of the nodes assuming a bulk reorder
